@@ -544,13 +544,14 @@ pub fn get_exif_metadata(entry: &DirEntry) -> Option<HashMap<String, String>> {
                                 || field_tag.eq("GPSLatitude")
                                 || field_tag.eq("GPSAltitude")) =>
                     {
-                        exif_info.insert(
-                            field_tag,
-                            vec.iter()
-                                .map(|r| (r.num / r.denom).to_string())
-                                .collect::<Vec<String>>()
-                                .join(";"),
-                        );
+                        // a rational with denominator 0 (no GPS fix) is no value
+                        let parts: Option<Vec<String>> = vec
+                            .iter()
+                            .map(|r| r.num.checked_div(r.denom).map(|v| v.to_string()))
+                            .collect();
+                        if let Some(parts) = parts {
+                            exif_info.insert(field_tag, parts.join(";"));
+                        }
                     }
                     exif::Value::Ascii(ref vec) if !vec.is_empty() => {
                         if let Ok(str_value) = std::str::from_utf8(&vec[0]) {
